@@ -160,7 +160,8 @@ def r2_no_unchecked_arith_on_peer_numbers(ctx):
                 R.check(not tainted, "C09.R2", "%s:arith@%s" % (fkey(b), st["rv"]["op"]), "arithmetic %s on locally produced numbers" % st["rv"]["op"], "unchecked arithmetic (%s) on a number supplied by the server (%s): an extreme id overflows (panic in overflow-checking builds, wrap-around otherwise) in the background read task" % (st["rv"]["op"], sorted(set(tainted))[:2]), "%s:%d" % (b.file, st["sp"][0]))
     R.extra["C09.R2.arith_sites"] = n
     # the range end computation uses checked_add and its failure is an error return
-    h = F.one(HRM)
+    from .common import client_message_handlers
+    h = client_message_handlers(F)[0]
     ca = h.calls_to(r"checked_add$")
     R.check(bool(ca), "C09.R2", "range-end:checked_add", "the exclusive range end is computed with checked_add", "handle_recv_message no longer uses checked_add for the reply id range", "%s:%d" % (h.file, h.lo))
     for c in h.calls_to(r"Option::<.*>::(unwrap|expect)$|Result::<.*>::(unwrap|expect)$"):
